@@ -134,7 +134,7 @@ def gen_values(tname, n, rng, distinct=None):
 
 def random_recipe(rng, flat=True, thin=False):
     n_rg = int(rng.integers(1, 5))
-    rgs = [int(rng.integers(0 if n_rg > 1 else 1, 120)) for _ in range(n_rg)]
+    rgs = [int(rng.integers(0 if n_rg > 1 else 1, 120)) * (8 if rng.random() < 0.15 else 1) for _ in range(n_rg)]
     if sum(rgs) == 0:
         rgs[0] = 5
     cols = []
@@ -147,7 +147,7 @@ def random_recipe(rng, flat=True, thin=False):
         if t[1] in ("INT32", "INT64") and not use_dict and rng.random() < 0.3:
             enc = "DELTA_BINARY_PACKED"
         cols.append({"name": "c%d" % j, "type": t[0], "optional": bool(rng.random() < 0.6), "nulls": NULL_PATTERNS[int(rng.integers(0, len(NULL_PATTERNS)))],
-                     "use_dict": use_dict, "distinct": int([1, 2, 3, 9, 40, 300, 5000][int(rng.integers(0, 7))]) if use_dict else None,
+                     "use_dict": use_dict, "distinct": int([1, 2, 3, 9, 40, 130, 200, 255, 300, 5000][int(rng.integers(0, 10))]) if use_dict else None,
                      "dict_extra": int([0, 0, 0, 200, 70000][int(rng.integers(0, 5))]) if use_dict and rng.random() < 0.3 else 0,
                      "dict_fallback_page": int(rng.integers(1, 3)) if use_dict and rng.random() < 0.25 else None,
                      "dict_encoding_id": [2, 8][int(rng.integers(0, 2))], "encoding": enc,
